@@ -780,6 +780,10 @@ def fam_conc(rng, tier="quick"):
     # a reorg delivered while a late appointment for the disconnected block's dispute is answered
     pre = [reg(1), mine([D(1)]), {"op": "reorg", "depth": 1, "blocks": [[], [D(1)]], "to_mempool": True}]
     out.append(conc("conc-trigger-reorg", CFG_A, pre, [cadd(1, 1), CPOLL], pb, mx, rnd))
+    # ... and the late appointment's penalty is already confirmed in the block that is being disconnected: the tracker is
+    # either recorded as confirmed there and then flagged as reorged, or built after the disconnection (penalty sent again)
+    pre = [reg(1), mine([D(1)]), mine([P(1)]), {"op": "reorg", "depth": 1, "blocks": [[], []], "to_mempool": True}]
+    out.append(conc("conc-trigger-reorg-penalty", CFG_A, pre, [cadd(1, 1), CPOLL], pb, mx, rnd))
     # get_subscription_info against writers of the same user
     CSUB = {"op": "sub", "u": 1}
     out.append(conc("conc-sub-register", CFG_A, [reg(1), add(1, 1)], [CSUB, {"op": "register", "u": 1}], pb, mx, rnd))
